@@ -25,8 +25,12 @@ pub fn make(spec: &JobSpec, ex: &mut Executor, out: &mut JobResult) -> Option<Bo
             j.cases.retain(|c| format!("C06 errors {}", c.name) == label);
             Some(Box::new(j))
         }
+        "single" if spec.params.get("scenario").and_then(|s| s.get("label")).and_then(|l| l.as_str()).map_or(false, |l| l.starts_with("C06 callback-errors")) => {
+            Some(Box::new(CallbackErrorsJob::new()))
+        }
         "carrier" | "corpus" | "single" => SweepJob::new(spec, ex, out).map(|j| Box::new(j) as Box<dyn Job>),
         "errors" => Some(Box::new(ErrorsJob::new())),
+        "callback-errors" => Some(Box::new(CallbackErrorsJob::new())),
         k => {
             out.notes.push(format!("C06: unknown job kind {k}"));
             None
@@ -195,6 +199,9 @@ const CALLEES: &[(&str, usize, &str, &str)] = &[
     ("stack-push", 1, "Stack<int>", "stack().push({0})"),
     ("optional-some", 1, "Optional<int>", "some({0})"),
     ("to_str", 1, "str", "to_str({0})"),
+    ("tail-self-call", 2, "int", "fn v_t(v_n: int, v_a: int, v_b: int)->int{ if(v_n == 0, display(100), v_t(v_n - 1, {0}, {1})) } v_t(1, 0, 0)"),
+    ("tail-self-call-via-if_error", 2, "int", "fn v_t(v_n: int, v_a: int, v_b: int)->int{ if_error(if(v_n == 0, display(100), error(\"more\")), \"more\", v_t(v_n - 1, {0}, {1})) } v_t(1, 0, 0)"),
+    ("tail-self-call-via-or", 1, "bool", "fn v_t(v_n: int, v_a: int)->bool{ (v_n == 0 && display(100) > 0) || v_t(v_n - 1, {0}) } v_t(1, 0)"),
     ("lazy-map-forced", 1, "Sequence<int>", "range(3).map((v_x: int)->{ if(v_x == 1, {0}, v_x) }).to_array()"),
     ("generator-map-forced", 1, "Sequence<int>", "range(3).to_generator().map((v_x: int)->{ if(v_x == 1, {0}, v_x) }).to_array()"),
 ];
@@ -295,5 +302,77 @@ impl Job for ErrorsJob {
         }
         out.tuples.insert(format!("errors|{}", c.name));
         out.probe("error_cases");
+    }
+}
+
+
+// ------------------------------------------------------------------ errors returned by callbacks
+
+/// every native that calls back into a function: when the callback returns an error value the
+/// native yields that error (it is not read as false / not-equal / skipped)
+const CALLBACK_PROGRAM: &str = include_str!("c06_callbacks.xr");
+
+struct CallbackErrorsJob {
+    funcs: Vec<String>,
+}
+
+impl CallbackErrorsJob {
+    fn new() -> Self {
+        let funcs = CALLBACK_PROGRAM
+            .lines()
+            .filter_map(|l| l.strip_prefix("fn "))
+            .filter_map(|l| l.split('(').next())
+            .filter(|n| n.len() == 3 && n.chars().skip(1).all(|c| c.is_ascii_digit()))
+            .map(|n| n.to_string())
+            .collect();
+        CallbackErrorsJob { funcs }
+    }
+}
+
+impl Job for CallbackErrorsJob {
+    fn len(&self) -> usize {
+        1
+    }
+    fn scenario(&mut self, _i: usize) -> Scenario {
+        let mut sc = Scenario::standard(&format!("{CALLBACK_PROGRAM}\nfn main()->bool{{ true }}\n"), Limits::calibration());
+        sc.label = "C06 callback-errors".to_string();
+        let mut ops = vec![HostOp::Instantiate { slot: 0 }];
+        for f in &self.funcs {
+            ops.push(HostOp::Run { slot: 0, func: f.clone() });
+        }
+        ops.push(HostOp::DropAllResults);
+        ops.push(HostOp::DropScope { slot: 0 });
+        sc.ops = ops;
+        sc
+    }
+    fn judge(&mut self, _i: usize, sc: &Scenario, r: Exec, out: &mut JobResult) {
+        let r = match r {
+            Exec::Run(r) => r,
+            Exec::CompileError(m) => {
+                out.notes.push(format!("callback-errors program does not compile: {m}"));
+                out.count("errors_compile_failures", 1);
+                return;
+            }
+            Exec::CompilePanic(m) => {
+                out.violate(violation(P, P, ("crash".into(), crash_signature(&m), m.clone()), sc));
+                return;
+            }
+        };
+        out.absorb_run(&r);
+        for f in o_crash(&r) {
+            out.violate(violation(P, P, f, sc));
+        }
+        for (i, op) in sc.ops.iter().enumerate() {
+            if let HostOp::Run { func, .. } = op {
+                let got = &r.ops[i].outcome;
+                if *got != Outcome::Error("CB".to_string()) {
+                    let line = CALLBACK_PROGRAM.lines().find(|l| l.starts_with(&format!("fn {func}("))).unwrap_or("");
+                    let what: String = line.split('{').nth(1).unwrap_or("").trim().trim_end_matches('}').trim().chars().take(90).collect();
+                    out.violate(violation(P, P, ("errors".into(), format!("error returned by a callback is not the result: {what}"), format!("{func}: got {got:?}")), sc));
+                }
+                out.tuples.insert(format!("callback-error|{func}"));
+                out.probe("callback_error_cases");
+            }
+        }
     }
 }
